@@ -24,13 +24,16 @@ package dns
 //@   ensures nonempty: ok ==> len(absolute) > 0
 //@   pure
 
-// the zone parser's line state machine: the most recently stated TTL is tracked unless a $TTL directive is
+// the zone parser's line state machine: while no class token has been seen on a line the class is IN
+// (states zExpectOwnerBl=15, zExpectAny=16, zExpectAnyNoTTL=19, zExpectAnyNoTTLBl=20); the most recently stated TTL is tracked unless a $TTL directive is
 // in force, $INCLUDE opens a file only when allowed and below the depth limit, $GENERATE does not nest
 //@ func (*ZoneParser).Next [C06 C07]
 //@   requires zp != nil && zp.c != nil
 //@   requires lexinv: (zp.c.l.value == 1 ==> len(zp.c.l.token) > 0) && (zp.c.cachedL != nil ==> (zp.c.cachedL.value == 1 ==> len(zp.c.cachedL.token) > 0))
 //@   loop * invariant (zp.c.l.value == 1 ==> len(zp.c.l.token) > 0) && (zp.c.cachedL != nil ==> (zp.c.cachedL.value == 1 ==> len(zp.c.cachedL.token) > 0))
 //@   assume at "*rr.Header() = *h" tabctor: rr != nil && zp.c != nil && (zp.c.l.value == 1 ==> len(zp.c.l.token) > 0) && (zp.c.cachedL != nil ==> (zp.c.cachedL.value == 1 ==> len(zp.c.cachedL.token) > 0))
+//@   loop 1 invariant (st == 15 || st == 16 || st == 19 || st == 20) ==> zp.h.Class == 1 [C06]
+//@   assert at "h.Rrtype = l.torc@1" classin: zp.h.Class == 1 [C06]
 //@   assert at "st = zExpectAnyNoTTLBl@1" ttltrack0: zp.defttl != nil && (zp.defttl.isByDirective || zp.defttl.ttl == ttl) && zp.h.Ttl == ttl [C06]
 //@   assert at "st = zExpectAnyNoTTLBl@2" ttltrack1: zp.defttl != nil && (zp.defttl.isByDirective || zp.defttl.ttl == ttl) && zp.h.Ttl == ttl [C06]
 //@   assert at "st = zExpectRrtypeBl@2" ttltrack2: zp.defttl != nil && (zp.defttl.isByDirective || zp.defttl.ttl == ttl) && zp.h.Ttl == ttl [C06]
